@@ -604,3 +604,73 @@ func TestC04ReplayAfterRestart(t *testing.T) {
 		})
 	})
 }
+
+// TestC04Overlap: two or three link setups between the same two routers overlap
+// (any mix of directions, generated forwarding order of the handshake messages).
+// Refusals are fine; but every setup that completes at both ends reports the
+// other router's true address at each end and carries traffic both ways.
+func TestC04Overlap(t *testing.T) {
+	pool := ids.Routable()
+	core.Run(t, core.Opts{ID: "C04", Quick: 60, Thorough: 4000}, func(c *core.Case) {
+		ia := c.Pick("idA", len(pool))
+		ib := c.Pick("idB", len(pool)-1)
+		if ib >= ia {
+			ib++
+		}
+		vn := vnet.New()
+		a, err := vn.AddNode("A", pool[ia], vnet.NodeOpts{})
+		if err != nil {
+			c.Fatalf("node: %v", err)
+		}
+		b, err := vn.AddNode("B", pool[ib], vnet.NodeOpts{})
+		if err != nil {
+			c.Fatalf("node: %v", err)
+		}
+		w := &c16World{c: c, nodes: []*vnet.Node{a, b}}
+		defer func() {
+			for _, cc := range w.conns {
+				cc.conn.Teardown()
+			}
+		}()
+		k := c.Int("setups", 2, 3)
+		lockstep := c.Chance("lockstep", 1, 2)
+		var cs []*c16Conn
+		dirs := ""
+		for i := 0; i < k; i++ {
+			x, y := 0, 1
+			if c.Bool("reverse") {
+				x, y = 1, 0
+			}
+			dirs += fmt.Sprintf(" %s->%s", w.nodes[x].Name, w.nodes[y].Name)
+			cc := &c16Conn{conn: wire.Dial(w.nodes[x], w.nodes[y]), a: x, b: y}
+			cs = append(cs, cc)
+			w.conns = append(w.conns, cc)
+			time.Sleep(2 * time.Millisecond)
+		}
+		w.log("overlapping setups:%s (lockstep=%v)", dirs, lockstep)
+		w.drive(cs, lockstep, -1)
+		if w.inconcl {
+			c.Class("inconclusive-time-budget")
+			return
+		}
+		completed := 0
+		for _, cc := range cs {
+			if c16Completed(cc) != 2 {
+				continue
+			}
+			completed++
+			x, y := w.nodes[cc.a], w.nodes[cc.b]
+			if cc.conn.A.Link.Peer() != y.IP() || cc.conn.B.Link.Peer() != x.IP() {
+				c.Fatalf("a completed setup reports peers %s / %s, the routers are %s / %s (events: %v)", cc.conn.A.Link.Peer(), cc.conn.B.Link.Peer(), y.IP(), x.IP(), w.ops)
+			}
+			if cc.conn.A.Link.IsClosing() || cc.conn.B.Link.IsClosing() {
+				continue
+			}
+			c04Traffic(c, &c04Run{conn: cc.conn}, x, y)
+		}
+		c.Eval(fmt.Sprintf("overlap|%s|%v|%d", dirs, lockstep, completed), completed > 0, func() any {
+			return map[string]any{"kind": "overlapping setups", "setups": dirs, "lockstep": lockstep, "completed_at_both_ends": completed, "events": w.ops}
+		})
+		c.Class(fmt.Sprintf("overlap/completed=%d", completed))
+	})
+}
